@@ -27,6 +27,9 @@
 #include <memory>
 #include <sstream>
 #include <stdarg.h>
+#include <signal.h>
+#include <sys/time.h>
+#include <unistd.h>
 
 using namespace asmjit;
 
@@ -355,6 +358,7 @@ struct Snap {
   uint32_t node_kinds = 0;         // builder runs: bit per NodeType seen in the list before finalize
   uint32_t node_count = 0;
   std::string harness_error;
+  std::string list_corrupt, list_corrupt_detail;   // builder runs: edit op after which the node list was found malformed
   bool skipped = false;            // edit run that could not be judged (call-time error while feeding)
 };
 
@@ -689,6 +693,25 @@ static bool register_nodes(Run& r, const Call& c, std::map<std::string, BaseNode
   }
 }
 
+// The doubly linked node list must stay well formed after every public editing call: a malformed list cannot serialize to
+// anything (and makes update_section_links()/serialize_to() spin), so it is reported instead of being walked by the library.
+static std::string list_defect(BaseBuilder* b, size_t limit) {
+  BaseNode* first = b->first_node();
+  BaseNode* last = b->last_node();
+  if (!first || !last) return (first || last) ? "first/last disagree about emptiness" : "";
+  if (first->prev()) return "first node has a predecessor";
+  size_t n = 0;
+  BaseNode* prev = nullptr;
+  for (BaseNode* x = first; x; x = x->next()) {
+    if (++n > limit) return "list does not terminate (cycle)";
+    if (x->prev() != prev) return "prev link of a node does not point to its predecessor";
+    if (!x->is_active()) return "inactive node linked into the list";
+    prev = x;
+  }
+  if (prev != last) return "last_node() is not the end of the list";
+  return "";
+}
+
 static void run_builder(const Script& S, bool compiler, bool with_edits, Snap& out) {
   BuilderHolder H(S.arch, compiler);
   Run r;
@@ -715,7 +738,14 @@ static void run_builder(const Script& S, bool compiler, bool with_edits, Snap& o
       auto it = nodes.find(key);
       return it == nodes.end() ? nullptr : it->second;
     };
+    size_t list_limit = 8 * (S.calls.size() + S.edits.size() + 16);
+    const Edit* prev_ed = nullptr;
     for (const Edit& ed : S.edits) {
+      if (prev_ed) {
+        std::string defect = list_defect(b, list_limit);
+        if (!defect.empty()) { out.list_corrupt = prev_ed->op; out.list_corrupt_detail = defect + " after edit `" + prev_ed->op + " " + prev_ed->a + " " + prev_ed->b + "`"; return; }
+      }
+      prev_ed = &ed;
       BaseNode* n = nullptr; BaseNode* ref = nullptr;
       if (ed.op == "emit" || ed.op == "ni") {
         const Call* c = call_by_cid(S, atoi(ed.a.c_str()));
@@ -774,6 +804,14 @@ static void run_builder(const Script& S, bool compiler, bool with_edits, Snap& o
         if (ed.op == "ab") b->add_before(n, ref); else b->add_after(n, ref);
       }
       else { out.harness_error = "unknown edit op " + ed.op; return; }
+    }
+  }
+  {
+    std::string defect = list_defect(b, 8 * (S.calls.size() + S.edits.size() + 16));
+    if (!defect.empty()) {
+      out.list_corrupt = with_edits && !S.edits.empty() ? S.edits.back().op : std::string("calls");
+      out.list_corrupt_detail = defect + " before finalize()";
+      return;
     }
   }
   for (BaseNode* n = b->first_node(); n; n = n->next()) {
@@ -913,6 +951,7 @@ static const char* arch_family(const Script& S) { return S.arch == Arch::kAArch6
 static void judge_plain(const Script& S, const Snap& A, const Snap& R, const Snap& B, const char* who, Result& res) {
   std::string post = std::string(":plain:") + arch_family(S) + ":" + who;
   if (!B.harness_error.empty()) { res.harness = std::string(who) + ": " + B.harness_error; return; }
+  if (!B.list_corrupt.empty()) { res.viol.push_back({ "node-list-corrupt:" + B.list_corrupt + post, B.list_corrupt_detail }); return; }
   if (B.call_error) {
     // the builder refused a call itself: the assembler must refuse the same call with the same code
     if (A.err && A.call_error_cid != B.call_error_cid) {
@@ -1018,6 +1057,11 @@ static void judge(const Script& S, Result& res) {
     if (!B2.harness_error.empty()) { res.harness = std::string(who) + "(edit): " + B2.harness_error; return; }
     res.errR2 = R2.err; res.errB2 = B2.err;
     res.kinds_edit = B2.node_kinds; res.nodes_edit = B2.node_count;
+    if (!B2.list_corrupt.empty()) {
+      res.edit = 1;
+      res.viol.push_back({ "node-list-corrupt:" + B2.list_corrupt + ":edit:" + arch_family(S) + ":" + who, B2.list_corrupt_detail });
+      return;
+    }
     if (B2.skipped) { res.edit = 2; return; }
     res.edit = 1;
     Diff d;
@@ -1026,9 +1070,18 @@ static void judge(const Script& S, Result& res) {
   }
 }
 
+// Backstop against non-termination inside the library (a corrupted list makes it spin): CPU time, not wall time, per script.
+static void on_cpu_alarm(int) {
+  static const char msg[] = "@hang\n";
+  ssize_t r = write(2, msg, sizeof msg - 1); (void)r;
+  _exit(71);
+}
+
 int main(int argc, char** argv) {
   Args args(argc, argv);
   std::string in = args.str("scripts", "-");
+  unsigned cpu_limit = (unsigned)args.u64("cpu-limit", 20);
+  signal(SIGVTALRM, on_cpu_alarm);
   for (uint32_t id = 1; id < a64::Inst::_kIdCount; id++) {
     String s;
     InstAPI::inst_id_to_string(Arch::kAArch64, id, InstStringifyOptions::kNone, s);
@@ -1066,6 +1119,7 @@ int main(int argc, char** argv) {
       Result res;
       // announce the script before running it, so that a sanitizer abort can be attributed
       fprintf(stderr, "@script %s\n", S->sid.c_str());
+      { struct itimerval tv; memset(&tv, 0, sizeof tv); tv.it_value.tv_sec = cpu_limit; setitimer(ITIMER_VIRTUAL, &tv, nullptr); }
       if (S->parse_error) res.harness = S->parse_msg;
       else judge(*S, res);
       out = "{\"sid\":" + jstr(S->sid) + ",\"arch\":" + jstr(S->arch_s);
